@@ -181,6 +181,7 @@ def tie(ctx):
     dis = []
     terms, idx = [], []
     skipped = 0
+    overl = 0
     sigs = set()
     nontriv = 0
     for i, (c, r) in enumerate(runs):
@@ -193,6 +194,9 @@ def tie(ctx):
         if an:
             skipped += 1          # runs on which the property itself fails are handled by the oracle
             continue
+        if c02_oracle.overlapping(r['log']):
+            overl += 1            # two transition functions overlapped in time: outside the atomic model (the oracle
+            continue              # still judged the run against the property text)
         evs = _model_events(c, r)
         if '?' in evs:
             dis.append({'what': 'a close_link / link-error handler was entered but delivered no callback', 'case': c,
@@ -216,7 +220,7 @@ def tie(ctx):
                     'distinct (config, script, observed event order) with a link error or close after link_established',
             'samples': [{'case': runs[0][0], 'log': [e[1] for e in runs[0][1]['log'] if e[0] != 'rx']}] if runs else [],
             'distribution': {'runs': len(runs), 'distinct_signatures': len(sigs), 'replayed_on_model': len(terms),
-                             'left_to_oracle': skipped},
+                             'left_to_oracle': skipped, 'overlapping_transitions_not_replayed': overl},
             'disagreements': dis}
 
 
